@@ -65,9 +65,10 @@ type forest struct {
 	plan  [][]fstep // per tree
 	nextO int
 
-	depth   int   // nesting depth of the expressions: 1..depth
-	reading int   // the tree being read
-	envs    []int // its Env configurations in the order added
+	pool    map[int]bool // relay forests: the only names in use (indexes of fNames)
+	depth   int          // nesting depth of the expressions: 1..depth
+	reading int          // the tree being read
+	envs    []int        // its Env configurations in the order added
 }
 
 type fstep struct {
@@ -95,13 +96,18 @@ func fLower(i int) []string {
 // may then refer to each other in opposite directions in two trees, which is
 // not a cycle - a name denotes the setting of the tree the referring
 // expression lives in.
-func fLowerIn(rank []int, i int) []string {
+func fLowerIn(rank []int, i int, pool map[int]bool) []string {
 	if rank == nil {
 		return fLower(i)
 	}
-	out := append([]string{}, fNames[:fPlain]...)
+	var out []string
+	for j := 0; j < fPlain; j++ {
+		if pool == nil || pool[j] {
+			out = append(out, fNames[j])
+		}
+	}
 	for j := fPlain; j < len(fNames); j++ {
-		if rank[j] < rank[i] {
+		if rank[j] < rank[i] && (pool == nil || pool[j]) {
 			out = append(out, fNames[j], fNames[j], fNames[j])
 		}
 	}
@@ -115,14 +121,14 @@ func (f *forest) newDef(r *rand.Rand, i int, tag string, wide bool, rank []int) 
 	} else if wide {
 		// a text with several expansions: several names are resolved within
 		// one read
-		g := model.ExGen{Names: fLowerIn(rank, i), Lits: fLits, NameExprs: true}
+		g := model.ExGen{Names: fLowerIn(rank, i, f.pool), Lits: fLits, NameExprs: true}
 		c := &model.Ex{Kind: model.XCat}
 		for j, n := 0, 2+r.Intn(3); j < n; j++ {
 			c.Kids = append(c.Kids, g.Gen(r, 1))
 		}
 		ex = c.Normalize()
 	} else {
-		g := model.ExGen{Names: fLowerIn(rank, i), Lits: fLits, NameExprs: true}
+		g := model.ExGen{Names: fLowerIn(rank, i, f.pool), Lits: fLits, NameExprs: true}
 		ex = g.Gen(r, 1+r.Intn(f.depth))
 		if !ex.HasVar() && r.Intn(2) == 0 {
 			ex = g.Gen(r, f.depth)
@@ -130,6 +136,48 @@ func (f *forest) newDef(r *rand.Rand, i int, tag string, wide bool, rank []int) 
 	}
 	f.nextO++
 	return &fdef{ex: ex, text: renderAlt(ex, r), origin: f.nextO}
+}
+
+// genRelay: a forest of 3-4 trees over FEW names (one plain value, four
+// expressions), every tree ranking the names in an order of its own and
+// holding about half of them, no copies: a read is relayed from tree to tree
+// (a name missing in one Env configuration is found in the next one) and the
+// same name is resolved in several Env configurations within one read.
+func genRelay(r *rand.Rand, depth int) *forest {
+	idx := []int{0, 2, 3, 4, 6}
+	f := &forest{depth: depth, pool: map[int]bool{}}
+	for _, i := range idx {
+		f.pool[i] = true
+	}
+	for t, n := 0, 3+r.Intn(2); t < n; t++ {
+		label := fmt.Sprintf("t%d", t)
+		tr := &ftree{label: label, set: map[string]*fdef{}, ownOrder: true}
+		rank := make([]int, len(fNames))
+		for j, p := range r.Perm(len(fNames) - fPlain) {
+			rank[fPlain+j] = p
+		}
+		own := map[string]*fdef{}
+		for _, i := range idx {
+			if r.Intn(2) == 0 {
+				own[fNames[i]] = f.newDef(r, i, label, r.Intn(4) == 0, rank)
+			}
+		}
+		if len(own) == 0 {
+			i := idx[1+r.Intn(len(idx)-1)]
+			own[fNames[i]] = f.newDef(r, i, label, false, rank)
+		}
+		tr.steps = append(tr.steps, "merge "+describeDefs(own))
+		for n, d := range own {
+			tr.set[n] = d
+		}
+		f.trees = append(f.trees, tr)
+		f.plan = append(f.plan, []fstep{{kind: "own", own: own}})
+	}
+	if r.Intn(3) == 0 {
+		f.ress = append(f.ress, map[string]string{fNames[idx[r.Intn(len(idx))]]: "res0X"})
+		f.ownE = append(f.ownE, r.Intn(2) == 0)
+	}
+	return f
 }
 
 func genForest(r *rand.Rand, depth int) *forest {
@@ -150,13 +198,13 @@ func genForest(r *rand.Rand, depth int) *forest {
 		}
 		f.srcs = append(f.srcs, &ftree{label: label, set: set})
 	}
-	ntrees := []int{1, 2, 2, 3, 3}[r.Intn(5)]
+	ntrees := []int{1, 2, 3, 3, 4, 4}[r.Intn(6)]
 	for t := 0; t < ntrees; t++ {
 		label := fmt.Sprintf("t%d", t)
 		tr := &ftree{label: label, set: map[string]*fdef{}}
-		// every third tree ranks the names in an order of its own
+		// every second tree ranks the names in an order of its own
 		var rank []int
-		if r.Intn(3) == 0 {
+		if r.Intn(2) == 0 {
 			rank = make([]int, len(fNames))
 			for j, p := range r.Perm(len(fNames) - fPlain) {
 				rank[fPlain+j] = p
@@ -164,7 +212,13 @@ func genForest(r *rand.Rand, depth int) *forest {
 			tr.ownOrder = true
 		}
 		var plan []fstep
-		for j, c := 0, 1+r.Intn(5); j < c; j++ {
+		// one tree in three is thin (few settings of its own): most names it
+		// uses come from the Env configurations
+		nsteps := 1 + r.Intn(5)
+		if r.Intn(3) == 0 {
+			nsteps = r.Intn(2)
+		}
+		for j := 0; j < nsteps; j++ {
 			var st fstep
 			switch k := r.Intn(20); {
 			case k < 3:
@@ -340,6 +394,8 @@ type ftrace struct {
 	stack    []fframe // settings being evaluated
 	cyclic   bool     // a setting was entered again while being evaluated: C08's business, not compared
 	sameName bool     // a name was being evaluated in two different trees at the same time (no cycle)
+	twoEnvs  bool     // ... and both trees are Env configurations of the read
+	reading  int
 	// trees in which each definition (by origin) holding a ${} was evaluated
 	where     map[int]map[int]bool
 	envExpr   bool // an expression living in an Env configuration was evaluated
@@ -362,6 +418,9 @@ func (tr *ftrace) enter(t int, name string) bool {
 				return false
 			}
 			tr.sameName = true
+			if fr.tree != tr.reading && t != tr.reading {
+				tr.twoEnvs = true
+			}
 		}
 	}
 	tr.stack = append(tr.stack, fframe{t, name})
@@ -523,12 +582,18 @@ func (f *forest) eval(t int, e *model.Ex, tr *ftrace) fres {
 
 // --- run + compare ---
 
-func runForest(res *harness.R, r *rand.Rand, tier string, idx int, verbose bool) {
+func runForest(res *harness.R, r *rand.Rand, tier string, idx int, verbose bool, relay bool) {
 	depth := 2
 	if tier == "thorough" {
 		depth = 3
 	}
-	f := genForest(r, depth)
+	var f *forest
+	if relay {
+		f = genRelay(r, 1+r.Intn(depth))
+		res.Ev("relay_forest_cases", 1)
+	} else {
+		f = genForest(r, depth)
+	}
 	desc := "forest: " + f.describe()
 	var b *fbuilt
 	var err error
@@ -560,10 +625,10 @@ func readTree(res *harness.R, f *forest, b *fbuilt, desc string, verbose bool) b
 	sort.Strings(keys)
 	allOK := true
 	wants := map[string]fres{}
-	all := &ftrace{where: map[int]map[int]bool{}} // everything evaluated when the whole tree is unpacked
+	all := &ftrace{where: map[int]map[int]bool{}, reading: f.reading} // everything evaluated when the whole tree is unpacked
 	for _, k := range keys {
 		d := root.set[k]
-		tr := &ftrace{where: map[int]map[int]bool{}}
+		tr := &ftrace{where: map[int]map[int]bool{}, reading: f.reading}
 		tr.enter(f.reading, k)
 		want := f.evalDef(f.reading, d, tr)
 		all.stack = nil
@@ -595,6 +660,9 @@ func readTree(res *harness.R, f *forest, b *fbuilt, desc string, verbose bool) b
 		}
 		if tr.sameName {
 			res.Ev("forest_reads_with_one_name_being_evaluated_in_two_trees_at_once", 1)
+		}
+		if tr.twoEnvs {
+			res.Ev("forest_reads_with_one_name_being_evaluated_in_two_envs_at_once", 1)
 		}
 		if tr.fromRes {
 			res.Ev("forest_reads_answered_by_a_resolver", 1)
@@ -662,6 +730,10 @@ func sameNameSig(tr *ftrace, err error, sig string) string {
 	switch {
 	case tr == nil || !tr.sameName || strings.HasPrefix(sig, "escape-"):
 		return sig
+	case tr.twoEnvs && err != nil && vx.IsCyclicErr(err):
+		return "name-being-evaluated-in-two-envs-reported-as-cyclic"
+	case tr.twoEnvs:
+		return "name-being-evaluated-in-two-envs-disturbs-expansion"
 	case err != nil && vx.IsCyclicErr(err):
 		return "name-being-evaluated-in-another-tree-reported-as-cyclic"
 	}
